@@ -617,6 +617,10 @@ def call_kind(I, f, args, kwargs):
     """Builtin type called as a constructor / converter."""
     ck = I.concrete_kind(f)
     if ck is None:
+        # a class held in a variable (e.g. `convert = target_kind`): decide which builtin it is
+        for cand in ('int', 'float', 'complex', 'bool', 'str'):
+            if I.ex.choose(f.t == K(cand)):
+                return call_kind(I, VKind(cand), args, kwargs)
         raise Unsupported('call of symbolic class')
     a = args[0] if args else None
     if ck in ('tuple', 'list'):
@@ -758,6 +762,11 @@ def call_method(I, obj, m, args, kwargs):
                 if I.ex.choose(I.py_eq(it, args[0])):
                     return VInt(j)
             I.raise_(ValueError)
+    if isinstance(obj, VTuple) and m == 'index':
+        for j, it in enumerate(obj.items):
+            if I.ex.choose(I.py_eq(it, args[0])):
+                return VInt(j)
+        I.raise_(ValueError)
     if isinstance(obj, VSet):
         if m == 'add':
             obj.items.append(args[0])
@@ -1021,7 +1030,20 @@ def b_hasattr(I, f, args, kw):
         return VBool(hasattr(KIND_PY(obj), cn))
     if isinstance(obj, VAny):
         hf = z3.Function('hasattr_f', PyVal, z3.StringSort(), z3.BoolSort())
-        return VBool(hf(obj.t, name.t))
+        t = obj.t
+        if cn == '__len__':
+            # exact for the builtin scalars: str / bytes / containers are sized, numbers are not
+            sized = z3.Or(PyVal.is_PS(t), PyVal.is_PBy(t), PyVal.is_PL(t), PyVal.is_PDi(t), PyVal.is_PT(t))
+            unsized = z3.Or(PyVal.is_PNone(t), PyVal.is_PB(t), PyVal.is_PI(t), PyVal.is_PF(t), PyVal.is_PC(t),
+                            PyVal.is_PD(t), PyVal.is_PDT(t), PyVal.is_PTd(t))
+            return VBool(z3.If(sized, True, z3.If(unsized, False, hf(t, name.t))))
+        return VBool(hf(t, name.t))
+    if isinstance(obj, (VList, VSeq)) and cn is not None:
+        return VBool(hasattr(list, cn) if not (isinstance(obj, VSeq) and obj.kind in ('tuple', 'gen', 'range')) else hasattr(tuple if obj.kind == 'tuple' else range if obj.kind == 'range' else type(x for x in ()), cn))
+    if isinstance(obj, VTuple) and cn is not None:
+        return VBool(hasattr(tuple, cn))
+    if isinstance(obj, VDict) and cn is not None:
+        return VBool(hasattr(dict, cn))
     raise Unsupported('hasattr')
 
 
